@@ -329,7 +329,7 @@ def gen(rng, tier):
         name = op.split(".")[1]
         heavy = name in GCD_OPS or name in ROOT1_OPS or name == "nth_root"
         core = heavy or name in FLOOR_OPS or name in ("abs", "abs_sub", "mul_add")
-        per = (240 if thorough else 36) if core else (60 if thorough else 8)
+        per = (240 if thorough else 28) if core else (60 if thorough else 8)
         if heavy and thorough:
             per = 110
         if sig == "":
